@@ -6143,6 +6143,9 @@ def to_datetime(arg, meta=None, **kwargs):
             meta = meta_series_constructor(arg)([pd.Timestamp("2000", **tz_kwarg)])
             meta.index = meta.index.astype(arg.index.dtype)
             meta.index.name = arg.index.name
+            if is_series_like(arg):
+                # pd.to_datetime keeps the name of a Series
+                meta.name = arg.name
     else:
         meta = make_meta(meta)
 
